@@ -158,6 +158,41 @@ pub fn execute(row: &Value, variant: usize) -> Result<Value, String> {
       let t = Timestamp::from_unix(inst(&row["i"])).map_err(|e| format!("base instant rejected: {e}"))?;
       let du = duration(&row["du"]);
       let r = if k == "add" { t.checked_add(du) } else { t.checked_sub(du) };
+      // durations that only serde can build (the public constructors take unsigned whole units): the same span as
+      // [seconds, 0], its negation, and with half a second more. Whatever comes back is None or a canonical instant.
+      if !b(&row["du"]["max"]) {
+        let unit: i64 = match s(&row["du"]["unit"]) {
+          "seconds" => 1,
+          "minutes" => 60,
+          "hours" => 3600,
+          "days" => 86400,
+          _ => 604800,
+        };
+        if let Some(secs) = i(&row["du"]["n"]).checked_mul(unit) {
+          let via = |v: Value| serde_json::from_value::<Duration>(v).ok();
+          let apply = |d: Duration, add: bool| if add { t.checked_add(d) } else { t.checked_sub(d) };
+          let unix = |x: Option<Timestamp>| x.map(|y| y.to_unix());
+          if let Some(d) = via(json!([secs, 0])) {
+            if unix(apply(d, k == "add")) != unix(r) {
+              return Err(format!("the duration [{secs}, 0] obtained through serde gives {:?}, the constructed one {:?}", unix(apply(d, k == "add")), unix(r)));
+            }
+          }
+          if let Some(d) = via(json!([-secs, 0])) {
+            let opposite = apply(d, k != "add");
+            if let Some(x) = opposite {
+              observe(x).map_err(|e| format!("negative duration: {e}"))?;
+            }
+            if unix(opposite) != unix(r) {
+              return Err(format!("moving by -[{secs}] the other way gives {:?}, not {:?}", unix(opposite), unix(r)));
+            }
+          }
+          if let Some(d) = via(json!([secs, 500_000_000])) {
+            if let Some(x) = apply(d, k == "add") {
+              observe(x).map_err(|e| format!("fractional duration: {e}"))?;
+            }
+          }
+        }
+      }
       match r {
         Some(t2) => observe(t2),
         None => Ok(no),
